@@ -28,10 +28,12 @@ type State struct {
 	ctl   int
 	ret   []Val
 	calls map[string][][]Val // results of the calls made so far on this path, by callee name (for origin())
+	defers []*ast.DeferStmt
 }
 
 func (s *State) clone() *State {
-	n := &State{store: make(map[*Cell]Val, len(s.store)), pc: append([]*Term{}, s.pc...), ok: s.ok, ctl: s.ctl, ret: s.ret}
+	n := &State{store: make(map[*Cell]Val, len(s.store)), pc: append([]*Term{}, s.pc...), ok: s.ok, ctl: s.ctl, ret: s.ret,
+		defers: append([]*ast.DeferStmt{}, s.defers...)}
 	for k, v := range s.store {
 		n.store[k] = v
 	}
@@ -97,6 +99,7 @@ type Exec struct {
 	rootFields map[types.Object]map[string]bool
 	keepRootFields bool
 	nullableResults bool // pointer values created while this is set may be nil (results of calls)
+	assertExtra map[string]Val
 }
 
 func (ex *Exec) note(f string, a ...interface{}) {
@@ -485,6 +488,18 @@ func (ex *Exec) nameLookup(st *State, pos token.Pos) func(string) (Val, bool) {
 			if o.Parent() == o.Pkg().Scope() {
 				return ex.globalVar(st, o), true
 			}
+			if o.Pos() < ex.fi.Body.Pos() || o.Pos() > ex.fi.Body.End() {
+				// captured variable of an enclosing function: an arbitrary (but fixed) value
+				c := ex.cellOf(o)
+				v := ex.freshVal(st, kindOf(o.Type()), o.Name())
+				st.store[c] = v
+				if ex.entry != nil {
+					if _, ok := ex.entry.store[c]; !ok {
+						ex.entry.store[c] = v
+					}
+				}
+				return v, true
+			}
 			// a local that is not (yet) defined on this path: specifications see its zero value
 			return zeroVal(kindOf(o.Type())), true
 		case *types.Const:
@@ -514,7 +529,7 @@ func (ex *Exec) cenv(st *State, pos token.Pos) *CEnv {
 	ce := &CEnv{ex: ex, st: st, lookup: ex.nameLookup(st, pos), ok: st.ok, bound: map[string]*Term{}, lets: ex.lets}
 	if ex.entry != nil {
 		ce.ok0 = ex.entry.ok
-		ce.old = &CEnv{ex: ex, st: ex.entry, lookup: ex.nameLookup(ex.entry, ex.fi.Decl.Body.Lbrace+1), ok: ex.entry.ok, ok0: ex.entry.ok, bound: map[string]*Term{}, lets: ex.lets}
+		ce.old = &CEnv{ex: ex, st: ex.entry, lookup: ex.nameLookup(ex.entry, ex.fi.Body.Lbrace+1), ok: ex.entry.ok, ok0: ex.entry.ok, bound: map[string]*Term{}, lets: ex.lets}
 	}
 	return ce
 }
@@ -559,7 +574,7 @@ func (ex *Exec) run() (err error) {
 			}
 		}
 	}()
-	fd := ex.fi.Decl
+	fd := ex.fi
 	st := &State{store: map[*Cell]Val{}}
 	ex.cur = st
 	sig := ex.fi.Sig
@@ -613,6 +628,8 @@ func (ex *Exec) run() (err error) {
 			}
 		}
 	}
+	st.store[ex.ghostCell("stdoutWrites")] = SV{T: Zero}
+	st.store[ex.ghostCell("stdoutLast")] = mkVec(&Kind{K: "int"}, nil)
 	ex.entry = nil
 	if ex.P.Op == "var" {
 		st.assume(Ge(ex.P, IntLit(3)))
@@ -640,7 +657,21 @@ func (ex *Exec) run() (err error) {
 	ex.propagateEqualities(st)
 	ex.entry = st.clone()
 	// execute
-	finals := ex.execBlock([]*State{st}, fd.Body.List)
+	finals0 := ex.execBlock([]*State{st}, fd.Body.List)
+	var finals []*State
+	for _, f := range finals0 {
+		if f.ctl == ctlNormal && len(f.defers) > 0 {
+			f.ctl = ctlReturn
+			for _, o := range ex.runDefers(f) {
+				if o.ctl == ctlReturn && len(o.ret) == 0 {
+					o.ctl = ctlNormal
+				}
+				finals = append(finals, o)
+			}
+			continue
+		}
+		finals = append(finals, f)
+	}
 	nret := 0
 	for _, f := range finals {
 		if f.ctl == ctlPanic {
@@ -655,7 +686,7 @@ func (ex *Exec) run() (err error) {
 		ex.checkPost(f, nret)
 	}
 	if nret == 0 {
-		ex.fail("vacuity", "no-return-path", "no path reaches a return", fd)
+		ex.fail("vacuity", "no-return-path", "no path reaches a return", fd.Body)
 	}
 	return nil
 }
@@ -670,8 +701,8 @@ func (ex *Exec) applyShapeStr(st *State, path string, sh string) error {
 
 func (ex *Exec) applyShape(st *State, path string, dims []int) error {
 	parts := strings.Split(path, ".")
-	scope := ex.fi.Pkg.Types.Scope().Innermost(ex.fi.Decl.Body.Lbrace + 1)
-	_, obj := scope.LookupParent(parts[0], ex.fi.Decl.Body.Lbrace+1)
+	scope := ex.fi.Pkg.Types.Scope().Innermost(ex.fi.Body.Lbrace + 1)
+	_, obj := scope.LookupParent(parts[0], ex.fi.Body.Lbrace+1)
 	if obj == nil {
 		return fmt.Errorf("shape: unknown %s", parts[0])
 	}
@@ -794,7 +825,7 @@ func substVal(v Val, m map[*Term]*Term) Val {
 
 func (ex *Exec) checkPost(f *State, n int) {
 	ex.cur = f
-	ce := ex.cenv(f, ex.fi.Decl.Body.Rbrace)
+	ce := ex.cenv(f, ex.fi.Body.Rbrace)
 	base := ce.lookup
 	ce.lookup = func(name string) (Val, bool) {
 		if name == "result" && len(f.ret) > 0 {
@@ -929,7 +960,7 @@ func (ex *Exec) execStmt(st *State, s ast.Stmt) []*State {
 		}
 		st.ret = rets
 		st.ctl = ctlReturn
-		return []*State{st}
+		return ex.runDefers(st)
 	case *ast.IfStmt:
 		return ex.execIf(st, n)
 	case *ast.ForStmt:
@@ -952,7 +983,11 @@ func (ex *Exec) execStmt(st *State, s ast.Stmt) []*State {
 		}
 		return []*State{st}
 	case *ast.DeferStmt:
-		ex.note("defer at %s: effect on modelled state ignored", ex.pos(n))
+		if _, ok := n.Call.Fun.(*ast.FuncLit); ok && len(n.Call.Args) == 0 {
+			st.defers = append(st.defers, n)
+		} else {
+			ex.note("defer of a plain call at %s (e.g. file.Close()): no effect on modelled state", ex.pos(n))
+		}
 		return []*State{st}
 	case *ast.GoStmt:
 		return ex.execGo(st, n)
@@ -1458,6 +1493,16 @@ func (ex *Exec) ghostAsserts(states []*State, anchor string, pos token.Pos, node
 			}
 			ex.cur = s
 			ce := ex.cenv(s, pos)
+			if ex.assertExtra != nil {
+				base := ce.lookup
+				extra := ex.assertExtra
+				ce.lookup = func(name string) (Val, bool) {
+					if v, ok := extra[name]; ok {
+						return v, true
+					}
+					return base(name)
+				}
+			}
 			if anchor == "return" {
 				base := ce.lookup
 				ret := s.ret
@@ -2078,4 +2123,45 @@ func (ex *Exec) havocFields(st *State, old Val, k *Kind, hint string, fields map
 		}
 	}
 	return ex.havocLike(st, old, k, hint)
+}
+
+// runDefers executes deferred function literals (LIFO) at a return; they may update named results.
+func (ex *Exec) runDefers(st *State) []*State {
+	if len(st.defers) == 0 {
+		return []*State{st}
+	}
+	ds := st.defers
+	st.defers = nil
+	states := []*State{st}
+	for i := len(ds) - 1; i >= 0; i-- {
+		lit := ds[i].Call.Fun.(*ast.FuncLit)
+		var next []*State
+		for _, s := range states {
+			s.ctl = ctlNormal
+			outs := ex.execBlock([]*State{s}, lit.Body.List)
+			for _, o := range outs {
+				if o.ctl == ctlPanic {
+					next = append(next, o)
+					continue
+				}
+				o.ctl = ctlReturn
+				next = append(next, o)
+			}
+		}
+		states = next
+	}
+	for _, s := range states {
+		if s.ctl != ctlReturn {
+			continue
+		}
+		// named results may have been changed by the deferred closures
+		for i, rn := range ex.resultNames {
+			if rn != "" && i < len(s.ret) {
+				nr := append([]Val{}, s.ret...)
+				nr[i] = ex.namedResult(s, rn)
+				s.ret = nr
+			}
+		}
+	}
+	return states
 }
